@@ -207,13 +207,17 @@ func caseSize(c interface{}) int {
 func runWithWatchdog(e Engine, seed uint64, f *Findings, out *WorkerOut) *CaseResult {
 	done := make(chan *CaseResult, 1)
 	go func() { done <- e.Run(seed, f) }()
-	select {
-	case cr := <-done:
-		return cr
-	case <-time.After(120 * time.Second):
-		out.Trouble = fmt.Sprintf("watchdog: case seed=%d of engine %s did not finish in 120s", seed, e.Name())
-		return nil
+	// 240 ticks of half a second: a pause of the whole machine (snapshot, migration)
+	// makes one tick fire early, it cannot use up the budget
+	for tick := 0; tick < 240; tick++ {
+		select {
+		case cr := <-done:
+			return cr
+		case <-time.After(500 * time.Millisecond):
+		}
 	}
+	out.Trouble = fmt.Sprintf("watchdog: case seed=%d of engine %s did not finish in 120s", seed, e.Name())
+	return nil
 }
 
 // ---------------------------------------------------------------------------
